@@ -37,6 +37,8 @@ STR_POOL = [
     ("'quoted'", "s"), ('"dq"', "q"), ("'[type]' = 'road'", "s"), ("'", "s"), ("x'", "s"), ('"', "q"), ("''", "s"),
     # escaped occurrences of the double quote (in scope for C01: only *unescaped* output quotes are excluded)
     ('Pipe 5\\"', "qe"), ('say \\"hi\\" now', "qe"), ('\\"start', "qe"),
+    # line-break-like characters inside a value (str.splitlines() splits on all of them)
+    ("cr\r\nlf inside", "m"), ("lone\rcr", "m"), ("vt\x0bff\x0cnel\x85ls\u2028ps\u2029end", "mn"),
     ("ends with i", ""), ("i", ""), ("#not a colour", ""), ("0x1F", ""), ("1 2 3", ""), ("a  b", ""), ("NULL", ""),
 ]
 # contents that look like something else; only used where a check asks for them explicitly
